@@ -14,30 +14,33 @@
 (***************************************************************************)
 EXTENDS Integers, Sequences, FiniteSets, TLC
 CONSTANTS SPNs, TktLife, TGTLife, MaxClock
-VARIABLES clock, issued, session, cache, ret, destroyed
-vars == <<clock, issued, session, cache, ret, destroyed>>
+VARIABLES clock, issued, session, cache, ret, destroyed,
+          up          \* FALSE during an outage of the KDC: nothing is issued then, what is cached and valid is still served
+vars == <<clock, issued, session, cache, ret, destroyed, up>>
 NoTkt == [id |-> 0, spn |-> "none", end |-> 0]
-Init == clock = 0 /\ issued = << >> /\ session = NoTkt /\ cache = [s \in SPNs |-> NoTkt] /\ ret = NoTkt /\ destroyed = FALSE
+Init == clock = 0 /\ issued = << >> /\ session = NoTkt /\ cache = [s \in SPNs |-> NoTkt] /\ ret = NoTkt /\ destroyed = FALSE /\ up = TRUE
 Issue(spn, life) == [id |-> Len(issued) + 1, spn |-> spn, end |-> clock + life]
 ValidAt(t, now) == t.id # 0 /\ now < t.end
-Login == /\ ~destroyed /\ LET t == Issue("krbtgt", TGTLife) IN issued' = Append(issued, t) /\ session' = t
-         /\ UNCHANGED <<clock, cache, destroyed>> /\ ret' = NoTkt
+Login == /\ ~destroyed /\ up /\ LET t == Issue("krbtgt", TGTLife) IN issued' = Append(issued, t) /\ session' = t
+         /\ UNCHANGED <<clock, cache, destroyed, up>> /\ ret' = NoTkt
 \* a service ticket: from the cache while valid, otherwise a fresh one (needs a valid TGT, obtained on demand)
 Get(spn) == /\ ~destroyed
             /\ IF ValidAt(cache[spn], clock)
                THEN ret' = cache[spn] /\ UNCHANGED <<issued, session, cache>>
+               ELSE IF ~up THEN ret' = NoTkt /\ UNCHANGED <<issued, session, cache>>       \* the request fails
                ELSE LET needTGT == ~ValidAt(session, clock)
                         tgt == Issue("krbtgt", TGTLife)
                         iss1 == IF needTGT THEN Append(issued, tgt) ELSE issued
                         st == [id |-> Len(iss1) + 1, spn |-> spn, end |-> clock + TktLife]
                     IN /\ issued' = Append(iss1, st) /\ session' = (IF needTGT THEN tgt ELSE session)
                        /\ cache' = [cache EXCEPT ![spn] = st] /\ ret' = st
-            /\ UNCHANGED <<clock, destroyed>>
-AutoRenew == /\ ~destroyed /\ session.id # 0 /\ LET t == Issue("krbtgt", TGTLife) IN issued' = Append(issued, t) /\ session' = t
-             /\ UNCHANGED <<clock, cache, destroyed>> /\ ret' = NoTkt
-Wait == clock < MaxClock /\ clock' = clock + 1 /\ ret' = NoTkt /\ UNCHANGED <<issued, session, cache, destroyed>>
-Destroy == /\ destroyed' = TRUE /\ session' = NoTkt /\ cache' = [s \in SPNs |-> NoTkt] /\ ret' = NoTkt /\ UNCHANGED <<clock, issued>>
-Next == Login \/ (\E s \in SPNs : Get(s)) \/ AutoRenew \/ Wait \/ Destroy
+            /\ UNCHANGED <<clock, destroyed, up>>
+AutoRenew == /\ ~destroyed /\ up /\ session.id # 0 /\ LET t == Issue("krbtgt", TGTLife) IN issued' = Append(issued, t) /\ session' = t
+             /\ UNCHANGED <<clock, cache, destroyed, up>> /\ ret' = NoTkt
+Wait == clock < MaxClock /\ clock' = clock + 1 /\ ret' = NoTkt /\ UNCHANGED <<issued, session, cache, destroyed, up>>
+Outage == up' = ~up /\ ret' = NoTkt /\ UNCHANGED <<clock, issued, session, cache, destroyed>>       \* begins or ends
+Destroy == /\ destroyed' = TRUE /\ session' = NoTkt /\ cache' = [s \in SPNs |-> NoTkt] /\ ret' = NoTkt /\ UNCHANGED <<clock, issued, up>>
+Next == Outage \/ Login \/ (\E s \in SPNs : Get(s)) \/ AutoRenew \/ Wait \/ Destroy
 Spec == Init /\ [][Next]_vars
 \* ---- the properties ----------------------------------------------------------------------------------------------------------
 IssuedFor(t, spn, log) == \E i \in 1..Len(log) : log[i] = t /\ t.spn = spn
@@ -45,6 +48,8 @@ RightTicket == ret.id # 0 => IssuedFor(ret, ret.spn, issued)
 ServedOnlyWhileValid == ret.id # 0 => ValidAt(ret, clock)
 \* what is cached for an spn was issued for that spn
 CacheConsistent == \A s \in SPNs : cache[s].id # 0 => IssuedFor(cache[s], s, issued)
+\* once the KDC is back a request for a service ticket is served whatever happened during the outage (no stale session is used):
+\* Get is enabled and returns a valid ticket in every state with up = TRUE - part of RightTicket / ServedOnlyWhileValid above
 Bound == Len(issued) <= 5
 
 \* ---- request well-formedness (RFC 4120 3.1.1 / 3.3.1 and the krb5.conf settings), used on recorded KDC-side request events --------
